@@ -303,6 +303,19 @@ def inline_async_call(F, fn, bi, cid, cf):
     return True
 
 
+def _devirtualise(F, fn):
+    """after arguments are bound, a call through a local that can only hold one function item is a call of that function"""
+    B = mir.Body(fn, F)
+    for b in fn["blocks"]:
+        t = b["term"]
+        if t["k"] == "call" and t["f"].get("k") in ("copy", "move"):
+            org = B.origins(t["f"])
+            if len(org) == 1:
+                o = next(iter(org))
+                if o[0] == "fnitem":
+                    t["f"] = {"k": "const", "ty": "fn item (devirtualised)", "fn": o[1], "fnargs": [], "resolved": o[1]}
+
+
 def inline_new_helpers(F, known, crates):
     """rewrite F.fns in place: every call of a free / inherent function that is not in `known` (the function ids of the tree the rules
     were confirmed on) is analysed in place in its caller; helpers with no call left are dropped from the view. Returns the report."""
@@ -334,6 +347,7 @@ def inline_new_helpers(F, known, crates):
                         rep["inlined"].append((fid, c))
                         changed = True
             cur["crate"] = fn.get("crate")
+            _devirtualise(F, cur)
             F.fns[fid] = cur
         if not changed:
             break
